@@ -53,6 +53,9 @@ def gen(rs: int, tier: str, index: int) -> dict:
                   outcomes={"ret": 5, "exc": 5, "baseexc": 0, "nores": 1, "requeue": 1})
     s = gen_worker_script(rs, tier_knobs(kn, tier, index))
     from sim.rng import stream
+    if stream(rs, "c06rekey").random() < 0.15:
+        # a worker-side pre_execute middleware rewrites the task id: execution, Context and stored result follow the executed message's id
+        s["config"]["rekey"] = True
     r = stream(rs, "c06")
     # broker.dependency_overrides: replace a dependency by one that brings its own (possibly un-cached, Context-using) sub-dependencies
     for t in s["tasks"]:
@@ -135,7 +138,7 @@ def oracle(script: dict, run: Any) -> List[Violation]:
         m = h.msg(script, k)
         if m.get("kind", "valid") != "valid":
             continue
-        tid = f"m{k}"
+        tid = f"m{k}" + ("r" if script["config"].get("rekey") else "")
         want_args = [k] + list(m.get("args", []))
         want_own = (m.get("labels") or {}).get("own")
         # the labels this very delivery carried on the wire (decoded from its own bytes)
